@@ -492,14 +492,27 @@ def pipeline_case(seed):
             e = e + t
         return e
     pool = [integrand() for _ in range(rng.randint(2, 4))]
+
+    def integrand_dS():
+        # interior facets: every coefficient occurrence restricted at the terminal (what restriction propagation leaves untouched)
+        terms = []
+        for _ in range(rng.randint(1, 3)):
+            r = rng.random()
+            a, b = rng.choice(fs)(rng.choice("+-")), rng.choice(fs)(rng.choice("+-"))
+            terms.append(a if r < 0.4 else (rng.choice([2, 3, 0.5]) * a if r < 0.7 else a * b))
+        e = terms[0]
+        for t in terms[1:]:
+            e = e + t
+        return e
+    pool_dS = [integrand_dS() for _ in range(rng.randint(2, 4))]
     idpool = rng.sample([0, 1, 2, 3, 5], rng.randint(1, 3))
     form = None
     for _ in range(rng.randint(1, 7)):
-        name = rng.choice(["dx", "dx", "dx", "ds", "ds", "dP"])
+        name = rng.choice(["dx", "dx", "dx", "ds", "ds", "dP", "dS", "dS"])
         r = rng.random()
         sid = "everywhere" if r < 0.35 else (rng.choice(idpool) if r < 0.7 else tuple(rng.sample(idpool, rng.randint(1, len(idpool)))))
         m = ufl.Measure(name, domain=mesh, subdomain_id=sid, metadata=rng.choice(mds))
-        term = rng.choice(pool) * m
+        term = rng.choice(pool_dS if name == "dS" else pool) * m
         form = term if form is None else form + term
     opt = rng.random() < 0.6
     est = rng.random() < 0.6
